@@ -283,27 +283,43 @@ Section GenFacts.
   (* number of TokenQuotedLit tokens the scanner makes of the written label *)
   Definition lit_count (l : list Z) : nat := length (fst (lex_quoted (esc l ++ [34]))).
 
-  (* (2) hclwrite reading after Bytes() + ParseConfig (blockLabels.Current on
-         the re-lexed tokens): the label if the scanner made at most one
-         literal token of it, otherwise the label is DROPPED *)
-  Theorem label_relex_roundtrip l :
-    Forall valid_scalar l ->
-    exists ts, relex_quoted (gs l) = Some ts /\
-               current_label (LQuoted ts) = if (lit_count l <=? 1)%nat then [utf8 l] else [].
+  Lemma join_lits_pieces ps : join_lits (map piece_tok ps) = read_pieces ps.
   Proof.
-    intros Hv. destruct (string_codec is_print brace_printable l [] Hv) as (_ & (ps & Hlex & Hall & Hread) & _).
-    unfold relex_quoted, lit_count. rewrite gen_string_bytes. rewrite Hlex.
-    eexists. split; [reflexivity|]. simpl fst.
-    destruct ps as [|p ps].
-    - simpl in Hread. inversion Hread. reflexivity.
-    - inversion Hall as [|? ? [bs ->] Hall']; subst. destruct ps as [|p2 ps].
-      + simpl in Hread. destruct (unescape bs) as [u es| |] eqn:Eu; try discriminate.
-        destruct es; [|discriminate]. inversion Hread as [H0]. rewrite app_nil_r in H0.
-        simpl. rewrite Eu, H0. rewrite ?app_nil_r. reflexivity.
-      + inversion Hall' as [|? ? [bs2 ->] _]; subst. destruct ps; reflexivity.
+    induction ps as [|p ps IH]; [reflexivity|].
+    destruct p; try reflexivity. cbn [map piece_tok join_lits read_pieces]. simpl fst. simpl snd.
+    change (TokenQuotedLit =? TokenQuotedLit) with true. cbv iota. rewrite IH. reflexivity.
   Qed.
 
-  (* sufficient condition on the label itself: no '$' and no '%' *)
+  Lemma last_snoc {A} (l : list A) a d : last (l ++ [a]) d = a.
+  Proof. induction l as [|x l IH]; [reflexivity|]. simpl. destruct (l ++ [a]) eqn:E; [destruct l; discriminate|exact IH]. Qed.
+
+  Lemma removelast_snoc {A} (l : list A) a : removelast (l ++ [a]) = l.
+  Proof. apply removelast_last. Qed.
+
+  (* (2) hclwrite reading after Bytes() + ParseConfig (blockLabels.Current on
+         the re-lexed tokens, joining all literal tokens): always the label *)
+  Theorem label_relex_roundtrip l :
+    Forall valid_scalar l ->
+    exists ts, relex_quoted (gs l) = Some ts /\ current_label (LQuoted ts) = [utf8 l].
+  Proof.
+    intros Hv. destruct (string_codec is_print brace_printable l [] Hv) as (_ & (ps & Hlex & Hall & Hread) & _).
+    unfold relex_quoted. rewrite gen_string_bytes. rewrite Hlex.
+    eexists. split; [reflexivity|].
+    destruct ps as [|p ps].
+    - simpl in Hread. inversion Hread. reflexivity.
+    - set (r := map piece_tok (p :: ps) ++ [t_cquote]).
+      assert (Er : exists x y z, r = x :: y :: z).
+      { unfold r. simpl. destruct ps; simpl; do 3 eexists; reflexivity. }
+      destruct Er as (x & y & z & Er).
+      change (current_label (LQuoted (t_oquote :: r)) = [utf8 l]).
+      assert (E1 : last r t_oquote = t_cquote) by apply last_snoc.
+      assert (E2 : join_lits (removelast r) = Some (utf8 l)).
+      { unfold r. rewrite removelast_snoc, join_lits_pieces. exact Hread. }
+      unfold current_label. rewrite Er in *. rewrite E1, E2. reflexivity.
+  Qed.
+
+  (* sufficient condition for a label to be lexed as ONE literal token: no '$'
+     and no '%' *)
   Theorem label_relex_plain l :
     Forall valid_scalar l -> Forall plain l -> (lit_count l <= 1)%nat.
   Proof.
@@ -321,19 +337,33 @@ Section GenFacts.
     rewrite E. simpl. destruct (esc l); simpl; lia.
   Qed.
 
-  (* refutation witness (DESIGN §9 #3): the label  a$b  is written as "a$b",
-     lexed as three literal tokens, and dropped by Labels() *)
-  Theorem label_roundtrip_refuted :
+  (* HISTORICAL (DESIGN §9 #3, fixed in /repo by "Block.Labels must read quoted
+     labels that contain $ or %"): the reader that accepted exactly one literal
+     token dropped the label  a$b , which is lexed as three literal tokens.
+     Kept to document why the literal tokens must be joined; the correspondence
+     run distinguishes the two readers. *)
+  Definition current_label_single_token (ts : list tok) : list (list Z) :=
+    match ts with
+    | [o; l; c] =>
+        if (fst o =? TokenOQuote) && (fst l =? TokenQuotedLit) && (fst c =? TokenCQuote) then
+          match unescape (snd l) with UOk s [] => [s] | _ => [] end
+        else []
+    | [o; c] => if (fst o =? TokenOQuote) && (fst c =? TokenCQuote) then [[]] else []
+    | _ => []
+    end.
+
+  Theorem label_single_token_reader_refuted :
     is_print 97 = true -> is_print 98 = true ->
     exists l ts, Forall valid_scalar l /\ relex_quoted (gs l) = Some ts /\
-                 current_label (LQuoted ts) = [] /\ lit_count l = 3%nat.
+                 current_label_single_token ts = [] /\ lit_count l = 3%nat /\
+                 current_label (LQuoted ts) = [utf8 l].
   Proof.
     intros Ha Hb. exists [97; 36; 98].
     assert (E : esc [97; 36; 98] = [97; 36; 98]).
     { cbn [escape]. unfold escape_rune. simpl. rewrite Ha, Hb. reflexivity. }
     unfold relex_quoted, lit_count. rewrite gen_string_bytes, E.
     eexists. split; [repeat constructor; unfold valid_scalar; lia|].
-    split; [reflexivity|]. split; reflexivity.
+    split; [reflexivity|]. repeat split; reflexivity.
   Qed.
 
   (* (3) Labels() of the block as built (blockLabels.Current on the tokens
@@ -346,7 +376,10 @@ Section GenFacts.
     intros Hv Hnd. pose proof (unescape_escape_no_double is_print brace_printable l Hv Hnd) as H.
     destruct (gen_string_shape l) as [[E En]|[E _]]; rewrite E.
     - rewrite En in H. change (unescape []) with (UOk [] []) in H. inversion H. reflexivity.
-    - simpl. rewrite H. reflexivity.
+    - cbn [current_label last removelast join_lits]. simpl fst. simpl snd.
+      change (TokenOQuote =? TokenOQuote) with true. change (TokenCQuote =? TokenCQuote) with true.
+      change (TokenQuotedLit =? TokenQuotedLit) with true. simpl andb. cbv iota.
+      rewrite H. rewrite app_nil_r. reflexivity.
   Qed.
 
   Theorem label_fresh_refuted :
@@ -368,6 +401,18 @@ Section GenFacts.
     induction 1 as [|l ls [Hv Hnd] _ IH]; [reflexivity|].
     unfold current_labels, replace_labels in *. cbn [map flat_map].
     rewrite label_fresh_roundtrip by assumption. rewrite IH. reflexivity.
+  Qed.
+
+  Theorem labels_relex_roundtrip ls :
+    Forall (Forall valid_scalar) ls ->
+    exists nodes, map (fun l => relex_quoted (gs l)) ls = map Some nodes /\
+                  current_labels (map LQuoted nodes) = map utf8 ls.
+  Proof.
+    induction 1 as [|l ls Hv _ (nodes & E1 & E2)]; [exists []; split; reflexivity|].
+    destruct (label_relex_roundtrip l Hv) as (ts & Et & Ec).
+    exists (ts :: nodes). split.
+    - cbn [map]. rewrite Et, E1. reflexivity.
+    - unfold current_labels in *. cbn [map flat_map]. rewrite Ec, E2. reflexivity.
   Qed.
 End GenFacts.
 
